@@ -82,6 +82,9 @@ class DynamicEnumMeta(EnumMeta):
     def __iter__(cls):
         return (enum for enum in super().__iter__() if not enum.name.startswith(cls.UNRECOGNIZED_PREFIX))
 
+    def __reversed__(cls):
+        return (enum for enum in super().__reversed__() if not enum.name.startswith(cls.UNRECOGNIZED_PREFIX))
+
     def __len__(cls):
         return len(list(iter(cls)))
 
